@@ -140,3 +140,28 @@ Example C04_parser_nonvacuous :
              (fun p => Some (skip_ws (pc_ws c) inp p)) 0 [(0, 0, 1)] = true /\
   exists t rp lay tr, parse_full c inp 10 0 = LROk t rp lay tr /\ leaves t = [(0, 0, 1)].
 Proof. split; [vm_compute; reflexivity|]. vm_compute. do 4 eexists. split; reflexivity. Qed.
+(* ---- GLR on deterministic tables (GLR driver model, Model/GLR.v) ---------------------------
+   With a table that passes table_struct and table_complete and holds one action per cell,
+   every tree of the GLR model's forest whose leaves are the tokens the LR model shifted IS
+   the LR model's tree, up to the spans of interior nodes -- for all scanners, inputs and
+   fuel on both sides.  (Consequence of C04_lr_sound, C01_glr_model_sound and C04_unambiguous;
+   that the forest holds exactly one tree is decided per case by the check: it would need a
+   completeness theorem of the GLR exploration, which is false in general, see C02.) *)
+From PV Require Import Model.Forest Model.Scan Model.GLR Validators.ForestSound Proofs.GLRAgree.
+Theorem C04_glr_lr_agree_partial :
+  forall (g : grammar) (tb : table) (ann : list (list litem)) (fst_tab : list (list N))
+         (nul_tab : list bool) (stop_id start : N)
+         (lskipws : N -> option N) (next_token : nat -> N -> tokres) (lconsume in_layout : bool)
+         (lfuel : nat) (lpos : N) (t_lr : tree) rp lay tr
+         (terms : list term_info) (rx : N -> N -> option N) (in_len : N) (consume lexdis : bool)
+         (skipws : N -> skres) (rorder : list nat -> list nat -> list nat) (fuel : nat) (pos : N)
+         (nodes : forest) (root : nat),
+    table_struct g tb start = true ->
+    table_complete g tb ann fst_tab nul_tab stop_id = true ->
+    det_table tb = true ->
+    lr_parse g tb lskipws next_token stop_id lconsume in_layout lfuel lpos = LROk t_lr rp lay tr ->
+    glr_parse g tb terms rx in_len stop_id consume lexdis skipws rorder fuel pos = GLRForest nodes root ->
+    forall t, unfolds (glr_forest nodes root) (pred (length (glr_forest nodes root))) t ->
+      leaves t = leaves t_lr -> shape t = shape t_lr.
+Proof. exact glr_lr_agree. Qed.
+Print Assumptions C04_glr_lr_agree_partial.
